@@ -377,6 +377,92 @@ fn c10_text_without_tags_is_verbatim() {
     core::mem::forget(t);
 }
 
+// @verif props=C10,C14 tier=quick cap=1500 group=core fns=Tokenizer::tokenize_root,find_start_marker,should_lstrip_block,lstrip_block,Tokenizer::advance
+/// Text in front of a tag, with whitespace control, and the line bookkeeping across it: the source is EVERY lead
+/// text of up to 3 bytes over {space, LF, 'a'} followed by a block tag start "{%", "{%-" or "{%+" (symbolic), under
+/// EVERY lstrip_blocks / trim_blocks setting and from ANY start line.  The TemplateData token is the lead text
+/// minus (a) all trailing whitespace for '-', (b) line-leading spaces for no marker + lstrip_blocks, (c) nothing
+/// for '+' or otherwise; the tokenizer then stands exactly at the tag and its line has advanced by exactly the
+/// number of line feeds in the lead text - stripped or not (so a later error reports the right line).
+#[kani::proof]
+#[kani::unwind(8)]
+fn c10_lead_text_before_block_tag() {
+    let mut buf = [0u8; 8];
+    let lead_len: usize = kani::any();
+    kani::assume(lead_len <= 3);
+    let mut i = 0;
+    let mut nl: u16 = 0;
+    while i < 3 {
+        let c: u8 = kani::any();
+        kani::assume(c == b' ' || c == b'\n' || c == b'a');
+        if i < lead_len {
+            buf[i] = c;
+            if c == b'\n' {
+                nl += 1;
+            }
+        }
+        i += 1;
+    }
+    let mk: u8 = kani::any();
+    kani::assume(mk < 3);
+    let mut n = lead_len;
+    buf[n] = b'{';
+    buf[n + 1] = b'%';
+    n += 2;
+    if mk == 1 {
+        buf[n] = b'-';
+        n += 1;
+    } else if mk == 2 {
+        buf[n] = b'+';
+        n += 1;
+    }
+    buf[n] = b' ';
+    buf[n + 1] = b'x';
+    n += 2;
+    let s = unsafe { core::str::from_utf8_unchecked(&buf[..n]) };
+    let lstrip: bool = kani::any();
+    let line0: u16 = kani::any();
+    kani::assume(line0 >= 1);
+    let mut t = tokenizer_on(s, 0, ws_cfg(true, lstrip, kani::any()));
+    t.current_line = line0;
+    let r = t.tokenize_root();
+    // reference for the emitted text
+    let lead = &buf[..lead_len];
+    let expect_len = if mk == 1 {
+        let mut k = lead_len;
+        while k > 0 && (lead[k - 1] == b' ' || lead[k - 1] == b'\n') {
+            k -= 1;
+        }
+        k
+    } else if mk == 0 && lstrip {
+        let k = ref_trim_hws(lead);
+        if k == 0 || lead[k - 1] == b'\n' {
+            k
+        } else {
+            lead_len
+        }
+    } else {
+        lead_len
+    };
+    match r {
+        Ok(ControlFlow::Break((Token::TemplateData(d), _))) => {
+            assert!(expect_len > 0);
+            assert!(d.as_ptr() == s.as_ptr() && d.len() == expect_len);
+        }
+        Ok(ControlFlow::Continue(())) => assert!(expect_len == 0),
+        _ => assert!(false),
+    }
+    // positioned at the tag, which is pending
+    assert!(t.current_offset == lead_len);
+    assert!(matches!(t.pending_start_marker, Some((StartMarker::Block, l)) if l == if mk == 0 { 2 } else { 3 }));
+    // the line advanced by the number of line feeds passed over, stripped or not
+    assert!(t.current_line == line0.saturating_add(nl));
+    kani::cover!(mk == 1 && nl == 2 && expect_len == 1);
+    kani::cover!(mk == 0 && lstrip && expect_len < lead_len);
+    kani::cover!(mk == 2 && lstrip && lead_len == 3);
+    core::mem::forget((r, t));
+}
+
 #[cfg(test)]
 mod playback {
     use super::*;
